@@ -2074,6 +2074,7 @@ fn main() {
         ops
     };
     let mut ctx = Ctx { sys: Sys::new(), prefixes: vec![], router: None, trail: vec![], pending_lines: vec![] };
+    let mut wedged = false;
     for line in ops {
         let line = match line.split_once(" => ") {
             Some((a, _)) => a.to_string(),
@@ -2092,10 +2093,23 @@ fn main() {
                 out.case(&line, &obs, true);
             }
             "nregv" => {} // derived line of an earlier run (a re-entrant callable's nested call): re-derived, not executed
+            _ if wedged && name != "reset" => {} // the rest of a sequence whose registry stopped answering
             _ => {
-                match exec_seq(&mut out, &mut ctx, &line) {
-                    Some((obs, nt)) => out.case(&line, &obs, nt),
-                    None => out.config(&line),
+                wedged = false;
+                // the harness's own observation calls (tree dump, probes) go through the public API too: if they panic,
+                // the registry has stopped answering (e.g. it treats a lock poisoned by a panicking Drop as fatal)
+                match catch(|| exec_seq(&mut out, &mut ctx, &line)) {
+                    Ok(Some((obs, nt))) => out.case(&line, &obs, nt),
+                    Ok(None) => out.config(&line),
+                    Err(msg) => {
+                        wedged = true;
+                        let mut trail = ctx.trail.clone();
+                        if trail.last() != Some(&line) {
+                            trail.push(line.clone());
+                        }
+                        out.oracle_fail("registry.wedged", &format!("the registry panicked on an ordinary call after an earlier panic inside an API call: {}", msg), &trail);
+                        out.case(&line, &format!("{} wedged", line.split(' ').nth(1).unwrap_or("?")), false);
+                    }
                 }
                 for (l, o) in std::mem::take(&mut ctx.pending_lines) {
                     ctx.trail.push(l.clone());
